@@ -5,6 +5,8 @@ package main
 
 import (
 	"flag"
+	"runtime"
+	"runtime/debug"
 	"fmt"
 	"os"
 
@@ -23,7 +25,12 @@ func main() {
 	tier := flag.String("tier", "quick", "quick|thorough")
 	out := flag.String("out", "", "output directory")
 	replay := flag.String("replay", "", "abstract case to replay (prints observables)")
+	onep := flag.Bool("onep", false, "run on one P with rare garbage collections: whatever the code under test recycles through sync.Pool is handed to the very next taker")
 	flag.Parse()
+	if *onep {
+		runtime.GOMAXPROCS(1)
+		debug.SetGCPercent(4000)
+	}
 	rlog.SetDummyLogger() // the library's own log lines are not observables
 	fn, ok := props[*prop]
 	if !ok {
